@@ -70,8 +70,9 @@ def unpivot(unpivot_fields, extra_keys, extra_value, regex=True, resources=None)
                     config['unpivot_fields_without_regex'].append(field_to_pivot)
 
             config['fields_to_keep'] = [f['name'] for f in fields]
-            fields.extend(extra_keys)
-            fields.append(extra_value)
+            # every resource gets its own field dicts (later steps edit descriptors in place)
+            fields.extend(copy.deepcopy(extra_keys))
+            fields.append(copy.deepcopy(extra_value))
             schema['fields'] = fields
 
         yield package.pkg
